@@ -15,6 +15,15 @@
            verification formats as the text "None" -> repaired: refused
      enc   Basic with the default encrypt (md5) hashes a str and raises
                                                  -> repaired: compares md5 hex
+   A behaviour may go on with a SECOND check on the same request object
+   (Recheck), configured for an independent protection domain (AuthOps: dom).
+   The state between the two checks is what the request object carries:
+   request.login as the first check left it (dec[2]).  check_auth as written
+   does not read it; constant Reuse = TRUE models an algorithm that does
+   ("already verified": returns True when request.login is set) - a successful
+   check for one domain then authenticates the request for any other: TLC
+   must find that (MC_Auth_reuse.cfg, teeth).
+
    Conforms holds for AllFixed and must be violated for Pinned (the model has
    teeth).  `pred` carries the predicted decision under both, for comparison
    with the real decision (conformance drift).  A variant is a generator,
@@ -24,16 +33,21 @@ EXTENDS AuthOps, FiniteSets, TLC
 CONSTANTS Cfgs,        \* set of configurations [api, enc, tbl, m]
           Pres,        \* which sets of required Digest fields are present (bit sets, see AuthOps)
           Extras, QopQfs,  \* set of <<qop, qf>>
-          FixErr, FixNoPw, FixEnc   \* BOOLEAN: the variant of the algorithm whose line is emitted
+          FixErr, FixNoPw, FixEnc,  \* BOOLEAN: the variant of the algorithm whose line is emitted
+          Reuse,       \* BOOLEAN: variant that trusts request.login left by an earlier check
+          Doms,        \* domains of the second check: subset of {"same", "tbl", "realm", "both"}
+          Pres2, Extras2, QopQfs2   \* the credential classes for which a second check is explored
 
 VARIABLES part,   \* which slice of the case space this behaviour enumerates (see Init)
           c,      \* the case: <<api, enc, tbl, m, sch, form, user, sec, realm, pres, extra, qop, qf, hm>>  (what a replay drives)
           dec,    \* <<ret, login, auth>>: the decision of the chosen variant (the emitted line is Out)
           pred,   \* << <<ret, login, auth>> pinned, <<ret, login, auth>> all fixed >>
           vd,     \* Verdict of the emitted line
+          d2,     \* domain of the second check on the same request object, "" while there was none
+          dec2, pred2, vd2,   \* as dec, pred, vd, for the second check
           bad
 
-vars == <<part, c, dec, pred, vd, bad>>
+vars == <<part, c, dec, pred, vd, d2, dec2, pred2, vd2, bad>>
 
 (* values for the constants that a .cfg file cannot write (tuples, records).
    digest_auth, the Digest idiom and both filters pass no `encrypt`, so they
@@ -52,6 +66,7 @@ CfgsAll   == MkCfgs({"dict", "fdict", "fpw"}, {"GET", "POST"})
 QopQfsAll == {"none", "auth", "authint", "bogus"} \X {"both", "nocnonce", "nonc", "neither"}
 QopQfsFew == {<<"none", "neither">>, <<"auth", "both">>, <<"auth", "nonc">>, <<"bogus", "both">>}
 QopQfsQuick == {<<"none", "neither">>, <<"none", "both">>, <<"auth", "both">>, <<"auth", "nonc">>, <<"bogus", "both">>}
+QopQfsTwo == {<<"none", "neither">>, <<"auth", "both">>}     \* second checks in the quick tier
 QopQfsMid == QopQfsQuick \cup {<<"authint", "both">>, <<"auth", "neither">>, <<"none", "nocnonce">>}
 
 Pinned   == [err |-> FALSE, nopw |-> FALSE, enc |-> FALSE]
@@ -119,8 +134,19 @@ Observed(api, o) ==
          [] o = "errobj"  -> <<"400", "na", TRUE>>               \* status of the error object, body of the protected handler
          [] o = "exc"     -> <<"500", "na", FALSE>>
 
+(* a later check on the same request object: the paths that return or raise
+   before request.login is assigned leave what the earlier check put there *)
+ObservedAfter(api, o, prev) ==
+  IF o \in {"nohdr", "exc", "errobj"} /\ api \in {"check", "basic", "digest"}
+  THEN [Observed(api, o) EXCEPT ![2] = prev] ELSE Observed(api, o)
+
+(* the credential class as it stands in the domain of the second check *)
+InDomain(cr, dom) == [cr EXCEPT !.user  = IF dom \in {"tbl", "both"} THEN "unknown" ELSE @,
+                                !.realm = IF dom \in {"realm", "both"} THEN "wrong" ELSE @]
+
 LineOf(cfg, cr, obs) ==
-  [api |-> cfg.api, enc |-> cfg.enc, tbl |-> cfg.tbl, m |-> cfg.m,
+  [step |-> 1, dom |-> "same",
+   api |-> cfg.api, enc |-> cfg.enc, tbl |-> cfg.tbl, m |-> cfg.m,
    sch |-> cr.sch, form |-> cr.form, user |-> cr.user, sec |-> cr.sec, realm |-> cr.realm,
    pres |-> cr.pres, extra |-> cr.extra, qop |-> cr.qop, qf |-> cr.qf, hm |-> cr.hm,
    ret |-> obs[1], login |-> obs[2], auth |-> obs[3]]
@@ -131,7 +157,8 @@ LineOf(cfg, cr, obs) ==
 Parts == [cfg : Cfgs, u : {"known", "unknown"}, r : {"right", "wrong"}, h : {"same", "other"}]
 First(pt) == pt.u = "known" /\ pt.r = "right" /\ pt.h = "same"
 
-Init == part \in Parts /\ c = <<>> /\ dec = <<>> /\ pred = <<>> /\ vd = "" /\ bad = ""
+Init == /\ part \in Parts /\ c = <<>> /\ dec = <<>> /\ pred = <<>> /\ vd = "" /\ bad = ""
+        /\ d2 = "" /\ dec2 = <<>> /\ pred2 = <<>> /\ vd2 = ""
 
 Case(cfg, cr) ==
   /\ c' = <<cfg.api, cfg.enc, cfg.tbl, cfg.m, cr.sch, cr.form, cr.user, cr.sec, cr.realm, cr.pres,
@@ -141,6 +168,32 @@ Case(cfg, cr) ==
      IN dec' = obs /\ vd' = Verdict(line) /\ bad' = Run(P0, <<line>>, "")[2]
   /\ pred' = <<Observed(cfg.api, Outcome(Pinned, cfg, cr)), Observed(cfg.api, Outcome(AllFixed, cfg, cr))>>
   /\ part' = <<>>
+  /\ UNCHANGED <<d2, dec2, pred2, vd2>>
+
+CfgOf(cc) == [api |-> cc[1], enc |-> cc[2], tbl |-> cc[3], m |-> cc[4]]
+CredOf(cc) == [sch |-> cc[5], form |-> cc[6], user |-> cc[7], sec |-> cc[8], realm |-> cc[9], pres |-> cc[10],
+               extra |-> cc[11], qop |-> cc[12], qf |-> cc[13], hm |-> cc[14]]
+
+(* what the request object carries from the first check to the second *)
+RequestLogin == IF c = <<>> THEN "unset" ELSE dec[2]
+
+(* the second check, on the same request object, for the domain `dom` *)
+Recheck(dom) ==
+  /\ c # <<>> /\ d2 = ""
+  /\ c[1] \in {"check", "basic", "digest"}
+  /\ c[10] \in Pres2 /\ c[11] \in Extras2 /\ <<c[12], c[13]>> \in QopQfs2
+  /\ LET cfg  == CfgOf(c)
+         cr   == CredOf(c)
+         cr2  == InDomain(cr, dom)
+         o    == IF Reuse /\ RequestLogin = "name" THEN "auth" ELSE Outcome(Chosen, cfg, cr2)
+         obs  == ObservedAfter(cfg.api, o, RequestLogin)
+         ln1  == LineOf(cfg, cr, dec)
+         ln2  == [LineOf(cfg, cr, obs) EXCEPT !.step = 2, !.dom = dom]
+     IN /\ d2' = dom /\ dec2' = obs /\ vd2' = Verdict(ln2)
+        /\ bad' = Run(Apply(P0, ln1), <<ln2>>, bad)[2]
+        /\ pred2' = <<ObservedAfter(cfg.api, Outcome(Pinned, cfg, cr2), pred[1][2]),
+                      ObservedAfter(cfg.api, Outcome(AllFixed, cfg, cr2), pred[2][2])>>
+  /\ UNCHANGED <<part, c, dec, pred, vd>>
 
 CaseNone == c = <<>> /\ First(part) /\ Case(part.cfg, Default)
 
@@ -157,28 +210,33 @@ CaseDigest == c = <<>> /\ \E p \in Pres, e \in Extras, qq \in QopQfs, s \in Secr
                  Case(part.cfg, [sch |-> "digest", form |-> "std", user |-> part.u, sec |-> s, realm |-> part.r, pres |-> p,
                                  extra |-> e, qop |-> qq[1], qf |-> qq[2], hm |-> part.h])
 
-(* one step per behaviour: a case state has no successor (the guard c = <<>>
-   comes first in every action so that TLC does not enumerate the case space
-   again from every case state) *)
-Next == CaseNone \/ CaseNoSpace \/ CaseUnknown \/ CaseBasic \/ CaseDigest
+(* a behaviour is one check, possibly followed by a second one on the same
+   request object (the guard c = <<>> comes first in every Case action so that
+   TLC does not enumerate the case space again from every case state) *)
+Next == CaseNone \/ CaseNoSpace \/ CaseUnknown \/ CaseBasic \/ CaseDigest \/ (\E dom \in Doms : Recheck(dom))
 
 Spec == Init /\ [][Next]_vars
 
 -----------------------------------------------------------------------------
-(* the emitted trace line (one per behaviour), as the instrumented code emits it *)
+(* the emitted trace lines (one per check), as the instrumented code emits them *)
 Out == IF c = <<>> THEN <<>>
-       ELSE <<[api |-> c[1], enc |-> c[2], tbl |-> c[3], m |-> c[4], sch |-> c[5], form |-> c[6], user |-> c[7],
-               sec |-> c[8], realm |-> c[9], pres |-> c[10], extra |-> c[11], qop |-> c[12], qf |-> c[13], hm |-> c[14],
-               ret |-> dec[1], login |-> dec[2], auth |-> dec[3]]>>
+       ELSE LET ln1 == LineOf(CfgOf(c), CredOf(c), dec)
+            IN IF d2 = "" THEN <<ln1>>
+               ELSE <<ln1, [LineOf(CfgOf(c), CredOf(c), dec2) EXCEPT !.step = 2, !.dom = d2]>>
 
-TypeOK == bad \in STRING /\ vd \in {"", "must", "mustnot", "open"}
+TypeOK == /\ bad \in STRING /\ vd \in {"", "must", "mustnot", "open"} /\ vd2 \in {"", "must", "mustnot", "open"}
+          /\ d2 \in {""} \cup Doms
 
 (* C20 as the monitor's verdict on the modelled algorithm *)
 Conforms == bad = ""
 
-(* C20 stated directly: authenticated <=> verifies, outside the open classes *)
-AuthIffVerifies == c # <<>> =>
-                     /\ (vd = "must" => dec[3])
-                     /\ (vd = "mustnot" => ~dec[3] /\ dec[2] # "name")
-                     /\ vd = Verdict(Out[1])
+(* C20 stated directly: authenticated <=> verifies (for the domain of that
+   check), outside the open classes - for every check of the behaviour *)
+AuthIffVerifies ==
+  /\ c # <<>> => /\ (vd = "must" => dec[3])
+                 /\ (vd = "mustnot" => ~dec[3] /\ dec[2] # "name")
+                 /\ vd = Verdict(Out[1])
+  /\ d2 # "" => /\ (vd2 = "must" => dec2[3])
+                /\ (vd2 = "mustnot" => ~dec2[3])
+                /\ vd2 = Verdict(Out[2])
 =============================================================================
